@@ -5,7 +5,7 @@
 int g_i, g_j, g_k, g_l;
 long g_live;
 unsigned g_seq;
-VF_TRACE_LIST(VF_TRACE_DEF)
+VF_TRACE_LIST(VF_TR_DEF)
 
 #ifndef VF_REPLACE_ALLOC
 /* leaf units: the real allocator stays underneath so CBMC's invalid-free / double-free /
@@ -20,7 +20,11 @@ void *vf_malloc(size_t n)
 void vf_free(void *p)
 {
     if (p) g_live--;
+#ifndef VF_LEDGER_ONLY_FREE
     free(p);
+#endif
+    /* VF_LEDGER_ONLY_FREE (driver-protocol units): the block is only taken off the ledger; double-free /
+     * use-after-free are checked in the leaf units, where the real free() stays underneath. */
 }
 #endif
 
@@ -48,4 +52,12 @@ int strncmp(const char *s1, const char *s2, size_t n)
         if (a == 0) return 0;
     }
     return 0;
+}
+
+int nondet_int(void);
+/* ABORT() formats its message with sprintf into a local buffer that only reaches USER_ABORT */
+int sprintf(char *s, const char *format, ...)
+{
+    (void)s; (void)format;
+    return nondet_int();
 }
